@@ -18,7 +18,7 @@ from sim.prng import Stream
 
 SELECT = ["set_used_res", "set_used_res_particles", "set_used_res_idx", "set_used_res_only", "set_used_chains", "add_used_chains", "reset", "temp_used_res"]
 OBSERVE = ["get_amp3", "density", "partial_weight", "partial_weight_interference"]
-FF = ["ff_old", "ff_new", "ff_integral_twice", "ff_append_grouped", "config_ff"]
+FF = ["ff_old", "ff_new", "ff_integral_twice", "ff_append_grouped", "config_ff", "ff_two_objects"]
 
 RULE = (
     "sessions are generated from the seed: card (3-body single-resonance chains, J=1 parent with aligned topologies, half-integer spins, "
@@ -399,6 +399,18 @@ class Session:
             f2, _ = ff.get_frac_grad(sum_diag=False)
             compare(f1, "fit-fraction", "FitFractions.integral")
             compare(f2, "accumulators-reset", "FitFractions.integral(second call)")
+        elif k == "ff_two_objects":
+            # two FitFractions objects alive at once (one per sample / per resonance list): each keeps ITS integrals
+            from tf_pwa.data import data_split
+
+            ff1 = FitFractions(self.amp, res)
+            ff1.integral(self.D, batch=batch)
+            first = next(iter(data_split(self.D, max(1, n // 2))))
+            ff2 = FitFractions(self.amp, res[:-1] if len(res) > 1 else res)
+            ff2.integral(first, batch=batch)
+            f1, _ = ff1.get_frac_grad(sum_diag=False)
+            compare(f1, "fit-fraction", "FitFractions(first of two objects)")
+            self.log.count("probe.two_fitfractions_objects_alive")
         elif k == "ff_append_grouped":
             from tf_pwa.data import data_split
 
